@@ -1,6 +1,7 @@
 package dataflow
 
 import (
+	"go/constant"
 	"go/token"
 	"go/types"
 
@@ -455,5 +456,140 @@ func VerifNewInterWorld(opKind, operand int, onDemand bool) *VerifInterWorld {
 	link(cOther, other, 3, true)
 	w.H = link(cH, h, 4, !onDemand)
 	w.Sink = link(cSink, sink, 5, true)
+	return w
+}
+
+// VerifGlobalWorld: `func w() { <G or part of G> = source() }`, `func r() { sink(<G or the same part>) }`,
+// `func main() { w(); r() }` with a package-level variable G:
+//
+//	shape 0: var G int            G = source()         sink(G)
+//	shape 1: var G struct{A,B int}  G.A = source()     sink(G.A)
+//	shape 2: var G [2]int         G[0] = source()      sink(G[0])
+//
+// all three functions summarised by the real intra-procedural analysis, globals registered as in the real state.
+type VerifGlobalWorld struct {
+	State  *AnalyzerState
+	Source *CallNode
+	Sink   *CallNode
+	Err    error
+}
+
+func VerifNewGlobalWorld(shape int) *VerifGlobalWorld {
+	w := &VerifGlobalWorld{}
+	intT := types.Type(types.Typ[types.Int])
+	tpkg := types.NewPackage("example.com/p", "p")
+	pkg := &ssa.Package{Pkg: tpkg}
+	prog := &ssa.Program{Fset: token.NewFileSet()}
+	typed := func(i ssa.Instruction, t types.Type) ssa.Value {
+		verifSetUnexported(i, "typ", t)
+		return i.(ssa.Value)
+	}
+	var gT types.Type
+	switch shape {
+	case 0:
+		gT = intT
+	case 1:
+		gT = types.NewStruct([]*types.Var{types.NewField(token.NoPos, tpkg, "A", intT, false), types.NewField(token.NoPos, tpkg, "B", intT, false)}, nil)
+	default:
+		gT = types.NewArray(intT, 2)
+	}
+	glob := &ssa.Global{Pkg: pkg}
+	verifSetUnexported(glob, "name", "G")
+	verifSetUnexported(glob, "typ", types.Type(types.NewPointer(gT)))
+	ptrInt := types.Type(types.NewPointer(intT))
+	// the address of the written / read part of G
+	part := func(instrs *[]ssa.Instruction) ssa.Value {
+		switch shape {
+		case 1:
+			fa := &ssa.FieldAddr{X: glob, Field: 0}
+			*instrs = append(*instrs, fa)
+			return typed(fa, ptrInt)
+		case 2:
+			ia := &ssa.IndexAddr{X: glob, Index: ssa.NewConst(constant.MakeInt64(0), intT)}
+			*instrs = append(*instrs, ia)
+			return typed(ia, ptrInt)
+		}
+		return glob
+	}
+	source := verifExternal("source", 0, 1, pkg)
+	sink := verifExternal("sink", 1, 0, pkg)
+	mkFn := func(name string) *ssa.Function {
+		f := &ssa.Function{Signature: hSig(0, 0), Prog: prog, Pkg: pkg}
+		verifSetUnexported(f, "name", name)
+		return f
+	}
+	wFn, rFn, mainFn := mkFn("w"), mkFn("r"), mkFn("main")
+	// w
+	cSrc := &ssa.Call{}
+	cSrc.Call.Value = source
+	typed(cSrc, intT)
+	wInstrs := []ssa.Instruction{cSrc}
+	wAddr := part(&wInstrs)
+	wInstrs = append(wInstrs, &ssa.Store{Addr: wAddr, Val: cSrc}, &ssa.Return{})
+	wb := &ssa.BasicBlock{Index: 0}
+	hSetBlock(wFn, wb, wInstrs)
+	wFn.Blocks = []*ssa.BasicBlock{wb}
+	// r
+	var rInstrs []ssa.Instruction
+	rAddr := part(&rInstrs)
+	ld := &ssa.UnOp{Op: token.MUL, X: rAddr}
+	typed(ld, intT)
+	cSink := &ssa.Call{}
+	cSink.Call.Value = sink
+	cSink.Call.Args = []ssa.Value{ld}
+	typed(cSink, types.Type(types.NewTuple()))
+	rInstrs = append(rInstrs, ld, cSink, &ssa.Return{})
+	rb := &ssa.BasicBlock{Index: 0}
+	hSetBlock(rFn, rb, rInstrs)
+	rFn.Blocks = []*ssa.BasicBlock{rb}
+	// main
+	cW, cR := &ssa.Call{}, &ssa.Call{}
+	cW.Call.Value, cR.Call.Value = wFn, rFn
+	typed(cW, types.Type(types.NewTuple()))
+	typed(cR, types.Type(types.NewTuple()))
+	mb := &ssa.BasicBlock{Index: 0}
+	hSetBlock(mainFn, mb, []ssa.Instruction{cW, cR, &ssa.Return{}})
+	mainFn.Blocks = []*ssa.BasicBlock{mb}
+
+	cfg := &config.Config{}
+	s := &AnalyzerState{
+		Config:          cfg,
+		Logger:          &config.LogGroup{},
+		Program:         prog,
+		PointerAnalysis: &pointer.Result{Queries: map[ssa.Value]pointer.Pointer{}, IndirectQueries: map[ssa.Value]pointer.Pointer{}},
+		Globals:         map[*ssa.Global]*GlobalNode{glob: newGlobalNode(glob)},
+		FlowGraph:       &InterProceduralFlowGraph{Summaries: map[*ssa.Function]*SummaryGraph{}},
+	}
+	s.reachableFunctions = map[*ssa.Function]bool{wFn: true, rFn: true, mainFn: true}
+	w.State = s
+	track := func(*AnalyzerState, ssa.Node) bool { return false }
+	sums := map[*ssa.Function]*SummaryGraph{}
+	for i, f := range []*ssa.Function{mainFn, wFn, rFn} {
+		sg := NewSummaryGraph(s, f, uint32(i+1), track, nil)
+		if _, err := RunIntraProcedural(s, sg); err != nil && w.Err == nil {
+			w.Err = err
+		}
+		s.FlowGraph.Summaries[f] = sg
+		sums[f] = sg
+	}
+	link := func(caller *ssa.Function, call *ssa.Call, callee *ssa.Function, id uint32) *CallNode {
+		sg := sums[callee]
+		if sg == nil {
+			sg = NewSummaryGraph(s, callee, id, track, nil)
+			sg.Constructed = true
+			s.FlowGraph.Summaries[callee] = sg
+			sums[callee] = sg
+		}
+		cn := sums[caller].Callees[call][callee]
+		if cn != nil {
+			cn.CalleeSummary = sg
+			sg.Callsites[call] = cn
+		}
+		return cn
+	}
+	w.Source = link(wFn, cSrc, source, 10)
+	w.Sink = link(rFn, cSink, sink, 11)
+	link(mainFn, cW, wFn, 0)
+	link(mainFn, cR, rFn, 0)
 	return w
 }
